@@ -768,7 +768,7 @@ class AbstractPathModelDAG(ABC):
             # checking if there is a path from source to sink
             found_path = False
             for out_neighbor in self.G.successors(vertex):
-                if self.edge_vars_sol[(str(vertex), str(out_neighbor), i)] == 1:
+                if self.edge_vars_sol[(vertex, out_neighbor, i)] == 1:
                     found_path = True
                     break
             if not found_path:
@@ -779,7 +779,7 @@ class AbstractPathModelDAG(ABC):
                 path = [vertex]
                 while vertex != self.G.sink:
                     for out_neighbor in self.G.successors(vertex):
-                        if self.edge_vars_sol[(str(vertex), str(out_neighbor), i)] == 1:
+                        if self.edge_vars_sol[(vertex, out_neighbor, i)] == 1:
                             vertex = out_neighbor
                             break
                     path.append(vertex)
@@ -817,7 +817,7 @@ class AbstractPathModelDAG(ABC):
             current_edge_position = 0
             path_temp = [self.G.source] + path
             for (u,v) in zip(path_temp[:-1], path_temp[1:]):
-                if round(edge_position_sol[(str(u), str(v), path_index)]) != current_edge_position:
+                if round(edge_position_sol[(u, v, path_index)]) != current_edge_position:
                     return False
                 current_edge_position += self.G[u][v].get(self.length_attr, 1)
         return True
